@@ -19,7 +19,7 @@ from __future__ import annotations
 
 import random
 
-from hv.scenarios.base import T, dur_ms, seed_all, stats_of, sub_seed
+from hv.scenarios.base import T, dur_ms, seed_all, stats_of, sub_seed, shared
 
 NAME = "network"
 MODEL = None
@@ -444,7 +444,8 @@ def build(cfg, seed):
         if p["via"] == "fault":
             nm, _ = resolve(p.get("net"))
             fault_handles.append(faults.add(NetworkPartition(
-                [names[i] for i in p["a"]], [names[i] for i in p["b"]], start=p["start"] / 1000.0,
+                shared("network.ga", [names[i] for i in p["a"]]), shared("network.gb", [names[i] for i in p["b"]]),
+                start=p["start"] / 1000.0,
                 end=p["end"] / 1000.0, asymmetric=p["asym"], network_name=nm)))
     for f in cfg["lat_faults"]:
         nm, target_net = resolve(f.get("net"))
@@ -461,7 +462,8 @@ def build(cfg, seed):
     if cfg["random_partition"]:
         rp = cfg["random_partition"]
         nm, _ = resolve(rp.get("net"))
-        faults.add(RandomPartition(list(names), mtbf=rp["mtbf_ms"] / 1000.0, mttr=rp["mttr_ms"] / 1000.0,
+        # the node list is a process-wide shared object (module-level-constant style, base.shared)
+        faults.add(RandomPartition(shared("network.nodes", list(names)), mtbf=rp["mtbf_ms"] / 1000.0, mttr=rp["mttr_ms"] / 1000.0,
                                    seed=sub_seed(seed, "random-partition"), network_name=nm))
 
     sources = []
